@@ -33,6 +33,8 @@ pub enum Ev {
     Scaled { k: i32, g: Box<Ev> },
     /// 1.5 + sin(omega*(t-t0)): strictly positive, no root
     Pos { omega: f64, t0: f64 },
+    /// g(-t, y): the event function of the time-reflected problem
+    Mirror { g: Box<Ev> },
 }
 
 impl Ev {
@@ -51,6 +53,7 @@ impl Ev {
             Ev::Const { v } => *v,
             Ev::Scaled { k, g } => ldexp(g.g(t, y), *k),
             Ev::Pos { omega, t0 } => 1.5 + (omega * (t - t0)).sin(),
+            Ev::Mirror { g } => g.g(-t, y),
         }
     }
     /// the function without its power-of-two factor
